@@ -139,7 +139,7 @@ package engine
 //@ env p.onWaitDone != nil
 //@ ensures [wait-released-exactly-once] (ev(wait_done) - old(ev(wait_done))) + calls(p.awaitRunAsync) == 1
 //@ ensures [success-only-after-a-clean-await] imp(result == nil, calls(p.awaitRunAsync) == 1 && (!result_of(<-awaitErr, 1) || result_of(<-awaitErr, 0) == nil))
-//@ ensures [awaited-error-fails-the-pool] imp(calls(p.awaitRunAsync) == 1 && result_of(<-awaitErr, 1) && !done(ctx), result == result_of(<-awaitErr, 0))
+//@ ensures [awaited-error-fails-the-pool] imp(calls(p.awaitRunAsync) == 1 && result_of(<-awaitErr, 1) && !done(cancels(cancel)), result == result_of(<-awaitErr, 0))
 //@ ensures [warm-up-failure-fails-the-pool] imp(result_of(p.warmUpGun, 0) != nil, result == result_of(p.warmUpGun, 0))
 //@ ensures [start-failure-fails-the-pool] imp(calls(p.runAsync) == 1 && result_of(p.runAsync, 1) != nil, result == result_of(p.runAsync, 1))
 
